@@ -1,7 +1,8 @@
 // EXPECT: violation nontermination
 #include "common.h"
-/* a scan loop that makes no progress on one input class (the parser hang pattern: the separator is not consumed) */
+/* a scan loop that makes no progress on one input class (the parser hang pattern: the separator is not consumed);
+   the loop lives outside the function `harness` (instructions of the harness itself are not counted against the limit) */
+static __attribute__((noinline)) unsigned scan(const char* p) { unsigned n = 0;
+  while (*p) { if (*p == 'a') ++p; else if (*p == '\r' && n > 1000000000u) ++p; else ++n; } return n; }
 void harness(void) { char buf[4]; for (int i = 0; i < 3; ++i) buf[i] = BIT() ? '\r' : 'a'; buf[3] = 0;
-  unsigned n = 0; const char* p = buf;
-  while (*p) { if (*p == 'a') ++p; else if (*p == '\r' && n > 1000000000u) ++p; else ++n; }
-  vs_check(n < 5, 1); }
+  vs_check(scan(buf) < 5, 1); }
